@@ -38,13 +38,17 @@ AuxInit == [tid |-> "", mem |-> MemInit,
             rpcOpen |-> EmptyFn,     \* task -> number of state-changing commits so far
             rpcDepth |-> EmptyFn,    \* task -> nesting depth of request handlers
             decl |-> EmptyFn,        \* stepKey -> declaration of the last accepted define_step
+            produced |-> EmptyFn,    \* path -> content last written by the step that declared it as output
+            volatileEver |-> {},     \* paths ever declared volatile
+            diskBefore |-> EmptyFn,  \* files on disk when the last phase ended (before clean-up)
+            phaseRc |-> 0,
             released |-> {},         \* steps that closed their outermost hold in this lifetime
             lostEdge |-> {},         \* files that lost a consumer edge in this trace
             inTxn |-> FALSE,
             draining |-> FALSE,
             dispatchedAfterFail |-> FALSE]
 
-CounterNames == {"commit", "wellformed", "transition", "pop_dispatch", "pop_none", "cmd_start",
+CounterNames == {"finalize_end", "removed_files", "write", "commit", "wellformed", "transition", "pop_dispatch", "pop_none", "cmd_start",
                  "phase_end", "rpc_reject", "rpc_ok", "hold", "traces", "pop_none_with_eligible"}
 CntInit == [c \in CounterNames |-> 0]
 Bump(c, name) == [c EXCEPT ![name] = @ + 1]
@@ -80,7 +84,9 @@ MemOf(e) ==
 OnProcStart(e) ==
   /\ aux' = [AuxInit EXCEPT !.tid = e.tid, !.mem = MemOf(e),
                             !.lostEdge = IF e.tid = aux.tid /\ ~e.fresh THEN aux.lostEdge ELSE {},
-                            !.decl = IF e.tid = aux.tid /\ ~e.fresh THEN aux.decl ELSE EmptyFn]
+                            !.decl = IF e.tid = aux.tid /\ ~e.fresh THEN aux.decl ELSE EmptyFn,
+                            !.produced = IF e.tid = aux.tid /\ ~e.fresh THEN aux.produced ELSE EmptyFn,
+                            !.volatileEver = IF e.tid = aux.tid /\ ~e.fresh THEN aux.volatileEver ELSE {}]
   /\ st' = IF e.tid = aux.tid /\ ~e.fresh THEN st ELSE NoState
   /\ bad' = bad
   /\ cnt' = IF e.tid = aux.tid THEN cnt ELSE Bump(cnt, "traces")
@@ -220,8 +226,11 @@ OnCmdStart(e, lineNo) ==
         {<<"started_with_unavailable_input", f>> : f \in {f \in Sources(st, s) :
               st.nodes[f].fstate \notin Available}}
       state == IF known /\ st.nodes[s].sstate # "RUNNING" THEN {<<"command_without_running_state", "">>} ELSE {}
+      need == IF known /\ ~st.nodes[s].detached /\ ~NeededStep(st, aux.mem, s)
+              THEN {<<"executed_step_that_is_not_needed", s>>} ELSE {}
   IN /\ bad' = bad \o Mk(e, lineNo, "C12", over \cup res \cup held)
                    \o Mk(e, lineNo, "C03", avail) \o Mk(e, lineNo, "C09", state)
+                   \o Mk(e, lineNo, "C11", need)
      /\ aux' = [aux EXCEPT !.running = @ \cup {<<e.job, s>>}]
      /\ cnt' = Bump(cnt, "cmd_start")
      /\ UNCHANGED st
@@ -331,8 +340,90 @@ OnPhaseEnd(e, lineNo) ==
              e.summary.attr_sum + e.summary.cyclic = e.summary.ntotal}}
         \cup {<<"summary_exactly_one_cause", x>> : x \in {1} \ {i \in {1} :
              e.draining \/ e.summary.ntotal = 0 \/ e.summary.attr_unique}}
-  IN /\ bad' = bad \o Mk(e, lineNo, "C10", left) \o Mk(e, lineNo, "C19", c19)
+      c11 == IF e.rc = 0 \/ e.rc = 8
+             THEN {<<"needed_step_not_built", s>> : s \in {s \in Steps(st) : ~st.nodes[s].detached
+                      /\ NeededStep(st, aux.mem, s) /\ st.nodes[s].sstate # "SUCCEEDED"}}
+             ELSE {}
+  IN /\ bad' = bad \o Mk(e, lineNo, "C10", left) \o Mk(e, lineNo, "C19", c19) \o Mk(e, lineNo, "C11", c11)
      /\ cnt' = Bump(cnt, "phase_end")
+     /\ aux' = [aux EXCEPT !.diskBefore = e.disk.files, !.phaseRc = e.rc]
+     /\ UNCHANGED st
+
+(* ------------------- C06 / C07 / C11: clean-up and need at the end of a phase ------------- *)
+OnWrite(e) ==
+  LET f == "file:" \o e.path
+      s == StepKey(e.step)
+      declared == ~IsNoState(st) /\ f \in Keys(st) /\ <<s, f>> \in Deps(st)
+  IN /\ aux' = IF declared
+               THEN [aux EXCEPT !.produced = Put(@, e.path, e.content),
+                                !.volatileEver = IF st.nodes[f].fstate = "VOLATILE" THEN @ \cup {e.path} ELSE @]
+               ELSE aux
+     /\ cnt' = Bump(cnt, "write")
+     /\ UNCHANGED <<st, bad>>
+
+FilesOf(disk) == DOMAIN disk.files
+ContentOf(disk, p) == disk.files[p][1]
+CleanupAllowed(rc, mem) ==
+  /\ (rc = 0 \/ rc = 8) /\ mem.targets = {} /\ mem.targetDirs = {} /\ mem.clean
+IsPrefixDir(d, p) == Len(p) > Len(d) + 1 /\ SubSeq(p, 1, Len(d) + 1) = d \o "/"
+
+\* F9: a cycle of creator and dependency edges inside the detached part of the graph is a fixed
+\* point of the clean-up loop (a step that amended a product of its own sub-step as input)
+RECURSIVE DetachedClosure(_, _, _)
+DetachedClosure(db, frontier, seen) ==
+  IF frontier = {} THEN seen
+  ELSE LET nxt == {k \in Keys(db) : db.nodes[k].detached /\
+                     \E n \in frontier : Up(db, k) = n \/ <<n, k>> \in Deps(db)} \ (seen \cup frontier)
+       IN DetachedClosure(db, nxt, seen \cup frontier)
+ShapeDetachedCycle(db, p) ==
+  LET f == "file:" \o p IN
+    f \in Keys(db) /\ db.nodes[f].detached /\
+    \E s \in Sinks(db, f) : db.nodes[s].detached /\ f \in DetachedClosure(db, {s}, {})
+
+OnFinalizeEnd(e, lineNo) ==
+  IF IsNoState(st) THEN UNCHANGED <<st, aux, bad, cnt>> ELSE
+  LET before == aux.diskBefore
+      after == e.disk
+      removed == (DOMAIN before) \ FilesOf(after)
+      allowed == CleanupAllowed(aux.phaseRc, aux.mem)
+      isStatic(p) == ("file:" \o p) \in Keys(st) /\ ~st.nodes["file:" \o p].detached
+                        /\ Role(st.nodes["file:" \o p].fstate) = "STATIC"
+      c06 ==
+        {<<"removed_although_cleanup_disabled", p>> : p \in {p \in removed : ~allowed}}
+        \cup {<<"removed_file_never_produced_by_a_step", p>> : p \in {p \in removed : p \notin DOMAIN aux.produced}}
+        \cup {<<"removed_modified_output", p>> : p \in {p \in removed : p \in DOMAIN aux.produced
+                 /\ p \notin aux.volatileEver /\ before[p][1] # aux.produced[p]}}
+        \cup {<<"removed_static_file", p>> : p \in {p \in removed : isStatic(p)}}
+      activeOutput(p) ==
+        LET f == "file:" \o p IN
+          f \in Keys(st) /\ ~st.nodes[f].detached /\ Role(st.nodes[f].fstate) \in {"OUTPUT", "VOLATILE"}
+          /\ Up(st, f) \in Steps(st) /\ NeededStep(st, aux.mem, Up(st, f))
+      usedByActive(p) ==
+        LET f == "file:" \o p IN
+          f \in Keys(st) /\ \E t \in Sinks(st, f) : t \in Steps(st) /\ ~st.nodes[t].detached
+      orphan(p) == /\ p \in FilesOf(after) /\ ContentOf(after, p) = aux.produced[p]
+                   /\ ~activeOutput(p) /\ ~usedByActive(p) /\ ~isStatic(p)
+      c07 == IF ~allowed THEN {} ELSE
+        {<<"orphaned_output_left_on_disk", p,
+           IF ShapeDetachedCycle(st, p) THEN "F9-detached-creator-dependency-cycle" ELSE "">> :
+              p \in {p \in DOMAIN aux.produced : orphan(p)}}
+        \cup {<<"orphaned_output_left_in_graph", p>> : p \in {p \in DOMAIN aux.produced :
+                 ("file:" \o p) \in Keys(st) /\ st.nodes["file:" \o p].detached
+                 /\ ~usedByActive(p) /\ p \notin FilesOf(after)}}
+        \cup {<<"empty_directory_left", d>> : d \in {d \in {after.dirs[i] : i \in DOMAIN after.dirs} :
+                 (\E p \in DOMAIN aux.produced : IsPrefixDir(d, p))
+                 /\ ~\E q \in FilesOf(after) : IsPrefixDir(d, q)}}
+      c11 == IF ~allowed THEN {} ELSE
+        {<<"unneeded_optional_step_not_reverted", s>> : s \in {s \in Steps(st) : ~st.nodes[s].detached
+                 /\ ~NeededStep(st, aux.mem, s) /\ st.nodes[s].sstate # "PENDING"}}
+        \cup {<<"output_of_unneeded_step_left", f>> : f \in {f \in Files(st) : ~st.nodes[f].detached
+                 /\ Role(st.nodes[f].fstate) = "OUTPUT" /\ Up(st, f) \in Steps(st)
+                 /\ ~NeededStep(st, aux.mem, Up(st, f))
+                 /\ (st.nodes[f].fstate # "PLANNED"
+                     \/ (st.nodes[f].label \in FilesOf(after) /\ st.nodes[f].label \in DOMAIN aux.produced
+                         /\ ContentOf(after, st.nodes[f].label) = aux.produced[st.nodes[f].label]))}}
+  IN /\ bad' = bad \o Mk(e, lineNo, "C06", c06) \o Mk(e, lineNo, "C07", c07) \o Mk(e, lineNo, "C11", c11)
+     /\ cnt' = [Bump(cnt, "finalize_end") EXCEPT !["removed_files"] = @ + Cardinality(removed)]
      /\ UNCHANGED <<st, aux>>
 
 OnFault(e, lineNo) ==
@@ -355,6 +446,8 @@ Handle(e, lineNo) ==
     [] e.ev = "rpc_begin" -> OnRpcBegin(e)
     [] e.ev = "rpc_end" -> OnRpcEnd(e, lineNo)
     [] e.ev = "phase_end" -> OnPhaseEnd(e, lineNo)
+    [] e.ev = "write" -> OnWrite(e)
+    [] e.ev = "finalize_end" -> OnFinalizeEnd(e, lineNo)
     [] e.ev \in {"hang", "director_exc", "step_exc"} -> OnFault(e, lineNo)
     [] OTHER -> UNCHANGED <<st, aux, bad, cnt>>
 
